@@ -13,10 +13,14 @@ import (
 	"errors"
 	"fmt"
 	"os"
+	"strings"
+	"sync"
+	"time"
 	"unsafe"
 
 	"github.com/Ptt-official-app/go-pttbbs/cache"
 	"github.com/Ptt-official-app/go-pttbbs/cmbbs"
+	"github.com/Ptt-official-app/go-pttbbs/ptt"
 	"github.com/Ptt-official-app/go-pttbbs/ptttype"
 	"verifharness/internal/hx"
 )
@@ -28,7 +32,21 @@ var (
 	pwDirty   bool
 )
 
-func isPasswdOp(op string) bool { return op == "reset-pw" || op == "pw" || op == "pwq" }
+func isPasswdOp(op string) bool {
+	return op == "reset-pw" || op == "pw" || op == "pwq" || op == "pwcu" || op == "pw-money"
+}
+
+var (
+	offMoney  = int(unsafe.Offsetof(ptttype.USEREC_RAW.Money))
+	offUserID = int(unsafe.Offsetof(ptttype.USEREC_RAW.UserID))
+	lenUserID = len(ptttype.UserID_t{})
+)
+
+func le32(v int32) []byte {
+	b := make([]byte, 4)
+	binary.LittleEndian.PutUint32(b, uint32(v))
+	return b
+}
 
 func pwPath() string { return env.Path(".PASSWDS") }
 
@@ -178,6 +196,150 @@ func doPasswd(line string, ws []string) string {
 		}
 		return res
 
+	case ws[0] == "pwcu" && len(ws) == 4:
+		// a session holding the pair (uid, user-id) does a read-modify-write of its record:
+		// ptt.NewBoard -> groupOp -> pwcuBitEnableLevel -> pwcuStart … pwcuEnd (the board name is invalid, so
+		// nothing else happens). The record is written back with Money taken from the SHM cache.
+		uid, ok := parseInt(ws[1], -1<<31, 1<<31-1)
+		nm, ok2 := parseHex(ws[2])
+		_, ok3 := parseInt(ws[3], -1<<31, 1<<31-1)
+		if !ok || !ok2 || !ok3 || len(nm) != lenUserID {
+			return bad()
+		}
+		pwDirty = true
+		pb, before := readOpt(pwPath())
+		shm := int32(0)
+		if uid >= 1 && uid <= maxUsers {
+			shm = cache.MoneyOf(ptttype.UID(uid))
+		}
+		res := hx.CallT(8*time.Second, func() string {
+			u := &ptttype.UserecRaw{UserLevel: ptttype.PERM_BASIC | ptttype.PERM_LOGINOK | ptttype.PERM_BOARD}
+			copy(u.UserID[:], nm)
+			_, _ = ptt.NewBoard(u, ptttype.UID(uid), classBid, &ptttype.BoardID_t{}, []byte("CPBL"), []byte("x"), nil, 0, 0, 0, false)
+			return "done"
+		})
+		pa, after := readOpt(pwPath())
+		opLine := fmt.Sprintf("pwcu %d %s %d", uid, ws[2], shm)
+		stale := "match"
+		legal := uid >= 1 && uid <= maxUsers
+		lo, hi := (uid-1)*int64(pwSz), uid*int64(pwSz)
+		switch {
+		case !legal:
+			stale = "stale:uid"
+		case !pb || int64(len(before)) < hi:
+			stale = "stale:no-record"
+		case !bytes.Equal(cstr(before[lo+int64(offUserID):lo+int64(offUserID+lenUserID)]), cstr(nm)):
+			stale = "stale:other-id"
+			if bytes.EqualFold(cstr(before[lo+int64(offUserID):lo+int64(offUserID+lenUserID)]), cstr(nm)) {
+				stale = "stale:case-variant"
+			}
+		}
+		out := stateStr(pa, after)
+		if res != "done" {
+			out = res
+		}
+		i := run.Op(opLine, out, "pwcu:"+stale+":"+uidClass(uid), true)
+		switch {
+		case res != "done":
+			run.Fail(i, "passwd:stale-pair", res+" "+hx.LastPanic+" | op: "+trunc(opLine, 80))
+		case stale != "match":
+			if pa != pb || !bytes.Equal(before, after) {
+				run.Fail(i, "passwd:stale-pair", fmt.Sprintf("a session modify with the pair (uid %d, %q) — %s: slot %d holds %q — was not refused: .PASSWDS changed (first differing byte %d) | op: %s",
+					uid, cstr(nm), stale, uid, func() []byte {
+						if legal && pb && int64(len(before)) >= hi {
+							return cstr(before[lo+int64(offUserID) : lo+int64(offUserID+lenUserID)])
+						}
+						return nil
+					}(), firstDiffOutside(before, after, 0, 0), trunc(opLine, 80)))
+			}
+		default:
+			if d := firstDiffOutside(before, after, lo, hi); d >= 0 || len(after) != len(before) {
+				run.Fail(i, "passwd:frame", fmt.Sprintf("session modify of uid %d changed byte %d outside its record / length %d -> %d | op: %s", uid, d, len(before), len(after), trunc(opLine, 80)))
+			} else if !bytes.Equal(before[lo:lo+int64(offMoney)], after[lo:lo+int64(offMoney)]) {
+				run.Fail(i, "passwd:frame", fmt.Sprintf("session modify of uid %d changed bytes in front of the money field (user id, password, level …) | op: %s", uid, trunc(opLine, 80)))
+			}
+		}
+		return out
+
+	case ws[0] == "pw-money" && len(ws) == 2:
+		// concurrent single-field updates of different users through cache.SetUMoney / DeUMoney
+		type upd struct{ uid, val int64 }
+		var us []upd
+		for _, p := range strings.Split(ws[1], ",") {
+			kv := strings.Split(p, "=")
+			if len(kv) != 2 {
+				return bad()
+			}
+			u, ok := parseInt(kv[0], -1<<31, 1<<31-1)
+			v, ok2 := parseInt(kv[1], -1<<31, 1<<31-1)
+			if !ok || !ok2 {
+				return bad()
+			}
+			us = append(us, upd{u, v})
+		}
+		pwDirty = true
+		pb, before := readOpt(pwPath())
+		res := hx.CallT(30*time.Second, func() string {
+			start := make(chan struct{})
+			var wg sync.WaitGroup
+			for gi, u := range us {
+				wg.Add(1)
+				go func(gi int, u upd) {
+					defer wg.Done()
+					defer func() { _ = recover() }()
+					<-start
+					x := uint32(gi*7919 + 17)
+					for k := 0; k < 120; k++ { // intermediate values, then the final one
+						x = x*1664525 + 1013904223
+						_, _ = cache.SetUMoney(ptttype.UID(u.uid), int32(x>>8))
+					}
+					if gi%2 == 0 && u.val > 1000 && u.val < 1<<30 {
+						_, _ = cache.SetUMoney(ptttype.UID(u.uid), int32(u.val-1000))
+						_, _ = cache.DeUMoney(ptttype.UID(u.uid), 1000)
+					} else {
+						_, _ = cache.SetUMoney(ptttype.UID(u.uid), int32(u.val))
+					}
+				}(gi, u)
+			}
+			close(start)
+			wg.Wait()
+			return "done"
+		})
+		pa, after := readOpt(pwPath())
+		out := stateStr(pa, after)
+		if res != "done" {
+			out = res
+		}
+		i := run.Op(line, out, fmt.Sprintf("pw-money:%d-writers", len(us)), true)
+		if res != "done" {
+			fail(i, "passwd:concurrent-money", "%s", res)
+			return out
+		}
+		// the specification: every valid uid's money field holds its last value (a field beyond the end of a short
+		// file extends it, zero-filled: the accessors do not look at the length), nothing else differs
+		want := append([]byte{}, before...)
+		for _, u := range us {
+			o := (u.uid-1)*int64(pwSz) + int64(offMoney)
+			if u.uid >= 1 && u.uid <= maxUsers && pb {
+				for int64(len(want)) < o+4 {
+					want = append(want, 0)
+				}
+				copy(want[o:], le32(int32(u.val)))
+			}
+		}
+		if pa != pb || len(after) != len(want) {
+			fail(i, "passwd:concurrent-money", ".PASSWDS %d -> %d bytes, want %d", len(before), len(after), len(want))
+			return out
+		}
+		for p := range want {
+			if want[p] != after[p] {
+				fail(i, "passwd:concurrent-money", "after %d concurrent money updates of different users byte %d (record %d = uid %d, offset %d in the record; the money field is %d..%d) is %#x, want %#x: only the addressed 4-byte fields may change and each holds its user's last value",
+					len(us), p, p/pwSz, p/pwSz+1, p%pwSz, offMoney, offMoney+3, after[p], want[p])
+				break
+			}
+		}
+		return out
+
 	case ws[0] == "pwq" && len(ws) == 3:
 		uid, ok := parseInt(ws[2], -1<<31, 1<<31-1)
 		if !ok || (ws[1] != "whole" && ws[1] != "passwd" && ws[1] != "level") {
@@ -297,5 +459,65 @@ func generatePasswd() {
 	pass(file(3, 0), false, []int{1, 3, 4, 5, maxUsers, maxUsers + 1, 0})
 	pass(file(2, 1+r.Intn(pwSz-1)), false, []int{2, 3, maxUsers + 1})
 	pass(nil, true, []int{1, maxUsers, maxUsers + 1, 0})
+
+	// the stale (uid, user-id) pair of a session: the slot is reused by an id that differs only in letter case
+	// (or by any other id); the session's read-modify-write must be refused and leave .PASSWDS untouched.
+	withID := func(img []byte, id string, uid int) []byte {
+		out := append([]byte{}, img...)
+		for j := 0; j < lenUserID; j++ {
+			out[offUserID+j] = 0
+		}
+		copy(out[offUserID:offUserID+lenUserID-1], id)
+		copy(out[offMoney:], le32(cache.MoneyOf(ptttype.UID(uid))+777)) // the write-back syncs Money from SHM: make it visible
+		return out
+	}
+	idHex := func(id string) string {
+		b := make([]byte, lenUserID)
+		copy(b, id)
+		return hx.Hex(b)
+	}
+	nst := 4
+	if run.Thorough() {
+		nst = 60
+	}
+	ids := [][2]string{{"Chloe", "chloe"}, {"bob", "BOB"}, {"Amy12", "aMY12"}, {"zed", "zeD"}, {"Chloe", "Chlo"}, {"Chloe", "Chloe2"}, {"abc", "xyz"}}
+	for h := 0; h < nst; h++ {
+		f := file(maxUsers, 0)
+		pair := ids[h%len(ids)]
+		uid := []int{1, maxUsers, 2 + r.Intn(maxUsers-2), 7}[h%4]
+		copy(f[(uid-1)*pwSz:], withID(f[(uid-1)*pwSz:uid*pwSz], pair[0], uid))
+		do("reset-pw " + hx.Hex(f))
+		do(fmt.Sprintf("pwcu %d %s 0", uid, idHex(pair[0])))                                                 // the live session: accepted
+		do(fmt.Sprintf("pw update %d %s", uid, hx.Hex(withID(image(r, k), pair[1], uid))))                   // account removed, slot reused
+		do(fmt.Sprintf("pwcu %d %s 0", uid, idHex(pair[0])))                                                 // the stale pair: refused
+		do(fmt.Sprintf("pwcu %d %s 0", uid, idHex(pair[1])))                                                 // the new owner: accepted
+		do(fmt.Sprintf("pwcu %d %s 0", []int{0, maxUsers + 1, uid%maxUsers + 1}[r.Intn(3)], idHex(pair[1]))) // right id, wrong slot
+	}
+
+	// concurrent money updates of different users (cache.SetUMoney / DeUMoney): only the addressed 4-byte fields change
+	nb := 6
+	if run.Thorough() {
+		nb = 60
+	}
+	do("reset-pw " + hx.Hex(file(maxUsers, 0)))
+	for b := 0; b < nb; b++ {
+		perm := make([]int, maxUsers)
+		for j := range perm {
+			perm[j] = j + 1
+		}
+		for j := range perm {
+			o := r.Intn(len(perm))
+			perm[j], perm[o] = perm[o], perm[j]
+		}
+		nw := 2 + r.Intn(9)
+		var parts []string
+		for j := 0; j < nw; j++ {
+			parts = append(parts, fmt.Sprintf("%d=%d", perm[j], int32(r.U64()>>34)))
+		}
+		if r.Intn(3) == 0 {
+			parts = append(parts, fmt.Sprintf("%d=%d", []int{0, maxUsers + 1, -3}[r.Intn(3)], 5)) // a refused uid among them
+		}
+		do("pw-money " + strings.Join(parts, ","))
+	}
 	restorePasswd()
 }
